@@ -164,6 +164,13 @@ pub trait DynIter {
     fn count_rest(self: Box<Self>) -> usize;
     /// `Iterator::last()` of the rest
     fn last_rest(self: Box<Self>) -> Option<u128>;
+    /// `DoubleEndedIterator::rfold` over the rest (what `rev().for_each` / `rev().collect` use); `None` = not double ended
+    fn rfold_rest(self: Box<Self>) -> Option<Vec<u128>> {
+        None
+    }
+    /// `Iterator::min_by_key` / `max_by_key` of the rest (the provided methods every `min`/`max` flavour shares)
+    fn min_rest(self: Box<Self>) -> Option<u128>;
+    fn max_rest(self: Box<Self>) -> Option<u128>;
 }
 
 // The wrappers hold the library's iterator itself (not a `Map` over it), so that every method the iterator type
@@ -193,11 +200,24 @@ macro_rules! dyn_iter_common {
         fn last_rest(self: Box<Self>) -> Option<u128> {
             self.0.last().map(self.1)
         }
+        fn min_rest(self: Box<Self>) -> Option<u128> {
+            let conv = self.1;
+            self.0.min_by_key(|x| conv(x.clone()))
+                .map(conv)
+        }
+        fn max_rest(self: Box<Self>) -> Option<u128> {
+            let conv = self.1;
+            self.0.max_by_key(|x| conv(x.clone()))
+                .map(conv)
+        }
     };
 }
 
 struct FwdOnly<I: Iterator>(I, fn(I::Item) -> u128);
-impl<I: Iterator> DynIter for FwdOnly<I> {
+impl<I: Iterator> DynIter for FwdOnly<I>
+where
+    I::Item: Clone,
+{
     fn next_back(&mut self) -> Option<Option<u128>> {
         None
     }
@@ -211,7 +231,10 @@ impl<I: Iterator> DynIter for FwdOnly<I> {
 }
 
 struct FwdExact<I: Iterator>(I, fn(I::Item) -> u128);
-impl<I: Iterator + ExactSizeIterator> DynIter for FwdExact<I> {
+impl<I: Iterator + ExactSizeIterator> DynIter for FwdExact<I>
+where
+    I::Item: Clone,
+{
     fn next_back(&mut self) -> Option<Option<u128>> {
         None
     }
@@ -225,7 +248,10 @@ impl<I: Iterator + ExactSizeIterator> DynIter for FwdExact<I> {
 }
 
 struct Full<I: Iterator>(I, fn(I::Item) -> u128);
-impl<I: Iterator + ExactSizeIterator + DoubleEndedIterator> DynIter for Full<I> {
+impl<I: Iterator + ExactSizeIterator + DoubleEndedIterator> DynIter for Full<I>
+where
+    I::Item: Clone,
+{
     fn next_back(&mut self) -> Option<Option<u128>> {
         Some(self.0.next_back().map(self.1))
     }
@@ -234,6 +260,14 @@ impl<I: Iterator + ExactSizeIterator + DoubleEndedIterator> DynIter for Full<I> 
     }
     fn nth_back(&mut self, k: usize) -> Option<Option<u128>> {
         Some(self.0.nth_back(k).map(self.1))
+    }
+    fn rfold_rest(self: Box<Self>) -> Option<Vec<u128>> {
+        let conv = self.1;
+        Some(self.0.rfold(Vec::new(), |mut v, x| {
+            assert!(v.len() < (1 << 22), "the iterator does not end: more than 4 194 304 elements folded from the back");
+            v.push(conv(x));
+            v
+        }))
     }
     dyn_iter_common!();
 }
@@ -1015,6 +1049,30 @@ pub fn build_quads(kind: Flat, syms: &[u8]) -> Box<dyn DynDs> {
     }
 }
 
+/// A bit vector that reached its content through a history rather than one `collect()`.
+pub fn build_bits_grown(frozen: bool, zeros: usize, via_extend: bool, tail: &str) -> Box<dyn DynDs> {
+    let mut v = if via_extend {
+        let mut v = BitVectorMut::new();
+        v.extend_with_zeros(zeros);
+        v
+    } else {
+        BitVectorMut::with_zeros(zeros)
+    };
+    let bits: Vec<bool> = tail.chars().map(|c| c == '1').collect();
+    if tail.len() % 2 == 0 {
+        for &b in &bits {
+            v.push(b);
+        }
+    } else {
+        v.extend(bits.iter().copied());
+    }
+    if frozen {
+        Box::new(BvDs(BitVector::from(v)))
+    } else {
+        Box::new(BvmDs(v))
+    }
+}
+
 pub fn default_flat(kind: Flat) -> Box<dyn DynDs> {
     match kind {
         Flat::BitVector => Box::new(BvDs(BitVector::default())),
@@ -1029,6 +1087,44 @@ pub fn default_flat(kind: Flat) -> Box<dyn DynDs> {
     }
 }
 
+/// The same value, however it came to be: as built (life 0, 1), reloaded from its serialized form (2), a clone (3),
+/// or `other` (an existing value of the same concrete type with other content) overwritten by `clone_from` (4).
+/// Falls back to the built value when a step is unavailable (those steps are C11's / C19's subject).
+pub fn incarnate(x: Box<dyn DynDs>, life: u64, other: impl FnOnce() -> Option<Box<dyn DynDs>>) -> (Box<dyn DynDs>, &'static str) {
+    use crate::core::catch;
+    match life {
+        2 => {
+            let r = catch(|| {
+                let bytes = ser_vec(x.as_ref(), 0)?;
+                x.de_from(0, &mut &bytes[..])
+            });
+            match r {
+                Ok(Ok(y)) => (y, "reloaded"),
+                _ => (x, "built"),
+            }
+        }
+        3 => match catch(|| x.clone_box()) {
+            Ok(y) => (y, "clone"),
+            Err(_) => (x, "built"),
+        },
+        4 => {
+            let r = catch(|| {
+                let mut dst = other()?;
+                if dst.clone_from_dyn(x.as_ref()) {
+                    Some(dst)
+                } else {
+                    None
+                }
+            });
+            match r {
+                Ok(Some(y)) => (y, "clone_from"),
+                _ => (x, "built"),
+            }
+        }
+        _ => (x, "built"),
+    }
+}
+
 /// Compile-time part of C18: every public query structure is `Send + Sync`.
 /// (`DynDs: Send + Sync` already forces this for everything wrapped above; this spells the list out.)
 pub fn assert_send_sync_all() -> usize {
@@ -1037,6 +1133,13 @@ pub fn assert_send_sync_all() -> usize {
     }
     macro_rules! trees {
         ($($a:ident),*) => { 0 $( + ok::<$a<u8>>() + ok::<$a<u16>>() + ok::<$a<u32>>() + ok::<$a<u64>>() + ok::<$a<usize>>() + ok::<$a<u128>>() )* };
+    }
+    macro_rules! tree_iters {
+        ($($a:ident),*) => { 0 $(
+            + ok::<qwt::WTIterator<u8, $a<u8>, $a<u8>>>() + ok::<qwt::WTIterator<u8, $a<u8>, &'static $a<u8>>>()
+            + ok::<qwt::WTIterator<u64, $a<u64>, $a<u64>>>() + ok::<qwt::WTIterator<u64, $a<u64>, &'static $a<u64>>>()
+            + ok::<qwt::WTIterator<u128, $a<u128>, $a<u128>>>() + ok::<qwt::WTIterator<u128, $a<u128>, &'static $a<u128>>>()
+        )* };
     }
     trees!(QWT256, QWT512, QWT256Pfs, QWT512Pfs, HQWT256, HQWT512, HQWT256Pfs, HQWT512Pfs, WT, HWT)
         + ok::<BitVector>()
@@ -1048,4 +1151,14 @@ pub fn assert_send_sync_all() -> usize {
         + ok::<RSWide>()
         + ok::<DArray<false>>()
         + ok::<DArray<true>>()
+        // the builder and every public iterator type ("every public type")
+        + ok::<qwt::QVectorBuilder>()
+        + ok::<qwt::qvector::QVectorIterator<QVector>>()
+        + ok::<qwt::qvector::QVectorIterator<&'static QVector>>()
+        + ok::<qwt::bitvector::BitVectorIter<'static>>()
+        + ok::<qwt::bitvector::BitVectorIntoIter>()
+        + ok::<qwt::bitvector::BitVectorBitPositionsIter<'static, true>>()
+        + ok::<qwt::bitvector::BitVectorBitPositionsIter<'static, false>>()
+        + ok::<qwt::quadwt::huffqwt::PrefixCode>()
+        + tree_iters!(QWT256, QWT512, QWT256Pfs, QWT512Pfs, HQWT256, HQWT512, HQWT256Pfs, HQWT512Pfs, WT, HWT)
 }
